@@ -15,7 +15,9 @@ import (
 
 // ClientServerStream combines both a grpc.ServerStream and grpc.ClientStream
 type ClientServerStream struct {
-	ctx context.Context
+	ctx       context.Context
+	callerCtx context.Context // the context the call was made with (ctx is derived from it and also ends with the call)
+	abandoned bool            // set by Close: callerCtx had ended before the handler returned
 
 	header  metadata.MD
 	headerM sync.Mutex    // guards closing of headerC, trailer and sendClosed
@@ -37,6 +39,7 @@ func NewClientServerStream(ctx context.Context) *ClientServerStream {
 	newCtx, closed := context.WithCancel(ctx)
 	return &ClientServerStream{
 		ctx:        newCtx,
+		callerCtx:  ctx,
 		closed:     closed,
 		headerC:    make(chan struct{}),
 		closedC:    make(chan struct{}),
@@ -49,6 +52,9 @@ func (s *ClientServerStream) Close(err error) {
 	// headers that were set but never sent travel with the end of the stream, as in gRPC
 	_ = (&serverStream{s}).SendHeader(nil)
 	s.closeErr = handlerErr(err)
+	// a caller that had given up before the handler answered hears of its own cancellation or deadline, as over a
+	// connection, where the call is finished on the client side the moment its context ends
+	s.abandoned = s.callerCtx.Err() != nil
 	close(s.closedC)
 	close(s.serverSend)
 	s.closed()
@@ -58,6 +64,11 @@ func (s *ClientServerStream) Close(err error) {
 // context error keeps its meaning: grpc-go's server turns it into the status DeadlineExceeded / Canceled.
 // (Any other error that is not a status reads as Unknown with the error's text either way.)
 func handlerErr(err error) error {
+	if err == io.EOF {
+		// to a gRPC server an error like any other (Unknown "EOF"); handed on as it is, the client would read
+		// it as "the stream ended well"
+		return status.Error(codes.Unknown, err.Error())
+	}
 	if _, isStatus := status.FromError(err); !isStatus && (errors.Is(err, context.DeadlineExceeded) || errors.Is(err, context.Canceled)) {
 		return status.FromContextError(err).Err() // also when the handler added context to it: the text is kept
 	}
@@ -70,6 +81,14 @@ func (s *ClientServerStream) closeErrLocked() error {
 		return io.EOF
 	}
 	return s.closeErr
+}
+
+// endForClient is what the client reads at the end of the call. Safe to call if s.serverSend is closed.
+func (s *ClientServerStream) endForClient() error {
+	if s.abandoned {
+		return s.callerCtx.Err()
+	}
+	return s.closeErrLocked()
 }
 
 // doneErr is what an operation returns when ctx ends under it: the close error (or io.EOF) once
@@ -186,14 +205,14 @@ func (c *clientStream) recv() (any, error) {
 		select {
 		case _, ok := <-c.serverSend:
 			if !ok {
-				return nil, c.closeErrLocked()
+				return nil, c.endForClient()
 			}
 		default:
 		}
 		return nil, c.Context().Err()
 	case val, ok := <-c.serverSend:
 		if !ok {
-			return nil, c.closeErrLocked()
+			return nil, c.endForClient()
 		}
 		return val, nil
 	}
